@@ -6,6 +6,7 @@ import LekkerVerif.Model.DriverSplit
 import LekkerVerif.Model.DriverPrune
 import LekkerVerif.Model.DriverNames
 import LekkerVerif.Core.Monitor
+import LekkerVerif.Core.HierSolve
 /-! Driver ops.  Each op runs executable definitions of the model on the decoded request. -/
 open Lean
 
@@ -157,6 +158,31 @@ def opSolve (j : Json) : Json :=
           Json.arr (net.exposed.map fun e2 => gratToJson (total.sem e1.2 e2.2)).toArray
         Json.mkObj [("T", Json.arr rows.toArray), ("pins", toJson total.pins.length)]
 
+/-! ### op `hsolve` : a hierarchy through `HNet.solveH` (every sub-circuit solved first, its exposed block handed up) -/
+
+partial def parseTree (j : Json) : Option (HNet GRat) :=
+  match j.getObjVal? "leaf" with
+  | .ok l => do
+    let c ← (fromJson? (α := CompJ) l).toOption
+    let cd ← mkComp c
+    pure (.leaf cd)
+  | .error _ => do
+    let ch ← getArr j "children"
+    let children ← ch.toList.mapM parseTree
+    let links ← ((j.getObjVal? "links").toOption >>= fun x => (fromJson? (α := Array LinkJ) x).toOption)
+    let exposed ← ((j.getObjVal? "exposed").toOption >>= fun x => (fromJson? (α := Array ExpJ) x).toOption)
+    pure (.node children (links.toList.map fun l => ((l.a, l.p), (l.b, l.q))) (exposed.toList.map fun e => (e.name, (e.c, e.p))))
+
+def opHSolve (j : Json) : Json :=
+  match (j.getObjVal? "tree").toOption >>= parseTree with
+  | none => errJson "parse"
+  | some t =>
+    match HNet.solveH Solve.pySched t with
+    | .error e => errJson (errName e)
+    | .ok c =>
+      Json.mkObj [("pins", toJson c.pins),
+                  ("T", Json.arr (c.pins.map fun x => Json.arr (c.pins.map fun y => gratToJson (c.sem x y)).toArray).toArray)]
+
 /-- op `monsolve`: the monitor path of `Solver.solve` (`Monitor.solveMonitored` with the pin-count heuristic) -/
 def opMonSolve (j : Json) : Json :=
   match fromJson? (α := CaseJ) j with
@@ -193,6 +219,7 @@ def dispatch (j : Json) : Json :=
   | some "star" => opStar j
   | some "solve" => opSolve j
   | some "monsolve" => opMonSolve j
+  | some "hsolve" => opHSolve j
   | some "stack" => opStack j
   | some "rename" => opRename j
   | some "compose" => opCompose j
